@@ -157,4 +157,31 @@ SetGetViol(s, attr, given, t) ==
          \cup VertexConsistentViol(t)
 \* after save + reload every getter returns what it returned before
 SameAfterReloadViol(t, r) == V(r.nv = t.nv /\ r.acid = t.acid, "ReloadSameVertexData") \cup V(r.tris = t.tris, "ReloadSameTriangles")
+
+(* ---------------- C12: LE <-> SE conversion, per shape ---------------- *)
+AbsI(x) == IF x < 0 THEN -x ELSE x
+CloseSeqs(a, b, slack) == Len(a) = Len(b) /\ \A k \in 1..Len(a) : \A c \in 1..Len(a[k]) : AbsI(a[k][c] - b[k][c]) <= slack
+\* weights of vertex v as a function bone name -> w (1/1000), zero entries dropped
+WeightOf(t, b, v) == FoldLeft(LAMBDA a, e : IF e[1] = v THEN a + e[2] ELSE a, 0, t.weights[b])
+WeightsClose(s, t, slack) ==
+    Len(s.weights) = Len(t.weights) /\
+    \A b \in 1..Len(s.weights) :
+        LET bt == CHOOSE x \in 1..Len(t.bones) : t.bones[x] = s.bones[b] IN
+        \A v \in {e[1] : e \in ToSet(s.weights[b])} \cup {e[1] : e \in ToSet(t.weights[bt])} :
+            AbsI(WeightOf(s, b, v) - WeightOf(t, bt, v)) <= slack
+ConvertShapeViol(s, t) ==
+    V(t.nv = s.nv /\ t.pcid = s.pcid, "PositionsBitExact")
+    \cup V(BagEq(CanonSeq(t.tris), CanonSeq(s.tris)), "SameTriangleSet")
+    \cup V(Len(s.uvq) = 0 \/ CloseSeqs(s.uvq, t.uvq, 2), "UVsWithinStoragePrecision")
+    \cup V(Len(s.colq) = 0 \/ Len(t.colq) = 0 \/ CloseSeqs(s.colq, t.colq, 1), "ColoursWithinStoragePrecision")
+    \cup V(Len(s.colq) = 0 \/ Len(t.colq) > 0 \/ \A k \in 1..Len(s.colq) : s.colq[k] = <<255, 255, 255, 255>>, "OnlyWhiteColoursMayBeDropped")
+    \cup V(ToSet(t.bones) = ToSet(s.bones) /\ Len(t.bones) = Len(s.bones), "SameBoneList")
+    \* (a source whose per-vertex weights are not visible through the accessor cannot be compared)
+    \cup V(ToSet(t.bones) # ToSet(s.bones) \/ Len(t.bones) # Len(s.bones) \/ (\A b \in 1..Len(s.weights) : Len(s.weights[b]) = 0)
+           \/ WeightsClose(s, t, 3), "SameVertexWeights")
+    \cup V((s.shader = "") = (t.shader = "") /\ t.parent = s.parent, "ShaderAndParentKept")
+ConvertViol(S, T) ==
+    IF Len(S) # Len(T) THEN {"SameShapes"}
+    ELSE UNION {ConvertShapeViol(S[k], T[k]) : k \in 1..Len(S)}
+         \cup V(\A a, b \in 1..Len(T) : (a # b /\ T[a].parent = T[b].parent) => T[a].name # T[b].name, "SiblingShapesHaveDistinctNames")
 =============================================================================
